@@ -1,9 +1,12 @@
 package loadbalancer
 
 import (
+	"log"
 	"net/http"
 	"net/http/httputil"
 )
+
+var verifQuietLog *log.Logger
 
 // verifProxyFor: the per-backend proxy object (its ServeHTTP is redirected to verifStubProxy).
 func verifProxyFor(name string) *httputil.ReverseProxy {
@@ -18,7 +21,12 @@ func (t *verifFakeRT) RoundTrip(*http.Request) (*http.Response, error) { return 
 func verifStubProxy(p *httputil.ReverseProxy, rw http.ResponseWriter, req *http.Request) {
 	name := p.Transport.(*verifFakeRT).name
 	verifHit(name)
-	kind, status := verifNextOutcome()
+	if req.Header.Get("Upgrade") != "" {
+		// a tunnel lives until one side closes it: note whether a timer is attached to the request that reaches the proxy
+		_, has := req.Context().Deadline()
+		verifSetUpgradeDeadline(has)
+	}
+	kind, status := verifNextOutcome(req)
 	if kind != verifOutRefused {
 		for n := verifInterims(); n > 0; n-- {
 			// as ReverseProxy's Got1xxResponse hook does: copy the interim response's own
